@@ -452,7 +452,17 @@ def replay(stage_dir, h, spec, prop, log_dir, expect_hang=False):
     """Extract the solver's counterexample as a concrete-playback test and run it natively.
     Returns (reproduced: bool, replay_path or None, note)."""
     name = spec["name"]
-    r = run_harness(stage_dir, h, spec, extra_kani=["-Z", "concrete-playback", "--concrete-playback=print"], playback=True, log_dir=log_dir)
+    # one counterexample extraction at a time on this machine: two concurrent kani-driver
+    # concrete-playback runs (e.g. two `bin/matrix` processes) were seen to crash each other
+    # (kani-driver panics in cbmc_output_parser.rs with ENOENT)
+    os.makedirs(SCRATCH, exist_ok=True)
+    _lk = open(os.path.join(SCRATCH, "replay.lock"), "w")
+    fcntl.flock(_lk, fcntl.LOCK_EX)
+    try:
+        r = run_harness(stage_dir, h, spec, extra_kani=["-Z", "concrete-playback", "--concrete-playback=print"], playback=True, log_dir=log_dir)
+    finally:
+        fcntl.flock(_lk, fcntl.LOCK_UN)
+        _lk.close()
     tests = r.get("playback_tests") or []
     want = "PROPERTY C%d violated" % int(prop[1:])
     chosen = None
